@@ -178,7 +178,8 @@ func propExpr(t *rapid.T, c *cx) {
 	size := 1 << lg
 	rho := rapid.SampledFrom([]int{1, 1, 2, 4}).Draw(t, "rho")
 	N := size * rho
-	s := drawCosetShift(t, c, N)
+	pal := shiftPalette(c, N)
+	s := rapid.SampledFrom(pal).Draw(t, "cosetshift")
 	nIn := rapid.IntRange(1, 4).Draw(t, "m")
 	homogeneous := rapid.IntRange(0, 2).Draw(t, "homogeneous") == 0 // all inputs and the result in Lagrange basis, linear expression
 	classes := []string{fmt.Sprintf("inputs:%d", nIn), fmt.Sprintf("rho:%d", rho)}
@@ -186,7 +187,7 @@ func propExpr(t *rapid.T, c *cx) {
 	var libs []inst.IopPoly
 	for j := 0; j < nIn; j++ {
 		co, cl := drawElems(t, c, size, fmt.Sprintf("p%d", j))
-		sh := &shared{c: c, p: ref.NewPoly(c.F, co), size: size, s: s, tabs: map[int]*tables{}}
+		sh := &shared{c: c, p: ref.NewPoly(c.F, co), size: size, s: s, pal: pal, tabs: map[int]*tables{}}
 		f := rapid.SampledFrom(allForms).Draw(t, fmt.Sprintf("form%d", j))
 		if homogeneous {
 			f.Basis = inst.Lagrange
@@ -195,14 +196,18 @@ func propExpr(t *rapid.T, c *cx) {
 		if f.Basis != inst.Canonical && rapid.Bool().Draw(t, fmt.Sprintf("converted%d", j)) {
 			// reach the form through the library (growing to N when rho > 1), as the PLONK provers do
 			m = newModel(sh, canReg, size)
+			v := rapid.IntRange(0, 14).Draw(t, fmt.Sprintf("variant%d", j)) // task counts and the coset shift of each domain
 			for m.n < N {
-				m.apply(t, opGrowCanonical, 0, N)
+				m.apply(t, opGrowCanonical, v, N)
+				classes = append(classes, m.tags...)
+				v += 4
 			}
 			if f.Basis == inst.Lagrange {
-				m.apply(t, opToLagrange, j, N)
+				m.apply(t, opToLagrange, v, N)
 			} else {
-				m.apply(t, opToLagrangeCoset, j, N)
+				m.apply(t, opToLagrangeCoset, v, N)
 			}
+			classes = append(classes, m.tags...)
 			if f.Layout == inst.Regular {
 				m.apply(t, opToRegular, 0, N)
 			} else {
@@ -367,14 +372,28 @@ func propQuotient(t *rapid.T, c *cx) {
 	n := 1 << lg
 	rho := rapid.SampledFrom([]int{1, 2, 2, 4, 8}).Draw(t, "rho")
 	N := n * rho
-	s := drawCosetShift(t, c, N)
-	dn, dN := c.dom(n, s), c.dom(N, s)
+	// the two domains are independent objects: each may carry its own coset shift (fft.WithShift). The numerator
+	// lives on the coset of the BIG domain; of the small one only the cardinality matters.
+	pal := shiftPalette(c, N)
+	var sSmall, s *big.Int
+	switch rapid.SampledFrom([]string{"none", "small", "big", "both_same", "both_diff"}).Draw(t, "domshifts") {
+	case "small":
+		sSmall = pal[1]
+	case "big":
+		s = pal[1]
+	case "both_same":
+		sSmall, s = pal[2], pal[2]
+	case "both_diff":
+		k := rapid.IntRange(1, 2).Draw(t, "which")
+		sSmall, s = pal[k], pal[3-k]
+	}
+	dn, dN := c.dom(n, sSmall), c.dom(N, s)
 	mode := rapid.SampledFrom([]string{"divisible", "divisible", "pipeline", "wrong_basis"}).Draw(t, "mode")
 	if mode == "pipeline" && rho < 2 {
 		mode = "divisible"
 	}
 	layout := rapid.IntRange(0, 1).Draw(t, "layout")
-	classes := []string{"mode:" + mode, fmt.Sprintf("rho:%d", rho), fmt.Sprintf("n:%d", n)}
+	classes := []string{"mode:" + mode, fmt.Sprintf("rho:%d", rho), fmt.Sprintf("n:%d", n), shiftPairClass(sSmall, s)}
 	y := drawElem(t, c, "y")
 	xnm1 := func(x *big.Int) *big.Int { return F.Sub(F.Exp(x, bi(int64(n))), bi(1)) }
 	readCanonical := func(h inst.IopPoly) ref.Poly {
